@@ -214,4 +214,37 @@ PROPS = {
                       'for listeners a bad slot is always an error; clusters / assignments / name table are total by construction and rejected iff a slot is bad (or the name-table response is empty). The executable spec additionally checks error-iff-invalid for listeners with nested payloads on every case.',
         'level_note': 'Trusted: Lean kernel; proto.Unmarshal; extractor (direct-access inventory); harness reference parse. Coverage-guided fuzzing is not part of the check (structured mutations only).',
     },
+    'C05': {
+        'extra_seed_args': ['-noenum'],
+        'rule': "deterministic schedules of real Get goroutines parked at four verif yield points (after the first miss, before the select, after the notifier arm, after the deadline arm), real UpdateResource through the scripted control plane, caller cancellation as the deadline, real eviction body: systematic enumeration (stateless search with re-execution) of all interleavings of four scenarios - one lookup x delivery x deadline; two lookups of one name x delivery x first caller's deadline; two lookups of different names x one delivery x deadline; delivery x eviction racing the wake-up - capped per scenario in the quick tier and complete in the thorough tier (which adds three lookups of one name with two deadlines, and two deliveries with eviction), plus random schedules with 3-6 lookups over two names. The select arm that fired is reported by the hooks; every trace is validated step by step against the interleaving model (each reported step must be enabled and lead to the reported result). " + 'Non-trivial: a delivery falls strictly between some lookup start and its return',
+        'assumptions': COMMON_ASSUME + ['wall-clock slack is not a theorem: the model has a deadline event; after it the thread needs one own step that waits only for m.mu',
+                                         'kinds: the kind check is the first statement of Get (regenerated fact kindCheckFirst); cached values have the dynamic type of their kind because each decoder produces one type (C11/C12) and the cache is keyed by type',
+                                         'Go scheduler, channels, select and sync.RWMutex are trusted'],
+        'level_text': 'Theorems over all schedules and any number of threads: no finished lookup has neither value nor error (invariant NoNil, result_shape); a value is returned only by a step of the lookup that reads exactly that value from the cache '
+                      '(value_was_served: never a placeholder; with C01 the cache holds only what an accepted response supplied); once the deadline fired the lookup ends with an error in exactly one own step that is always enabled (deadline_bounded); '
+                      'every unfinished lookup always has an enabled own step (always_progress). The shape of Get (re-check under the lock, last-waiter cleanup, checked re-read, kind check first) is re-read from manager.go on every run. '
+                      'A decide-checked schedule shows the unchecked re-read returned neither (S8, repaired).',
+        'level_note': 'Trusted: Lean kernel; Go runtime; extractor (getVariant, kindCheckFirst); yield hooks and scheduler of the harness.',
+    },
+    'C06': {
+        'extra_seed_args': ['-noenum'],
+        'rule': "deterministic schedules of real Get goroutines parked at four verif yield points (after the first miss, before the select, after the notifier arm, after the deadline arm), real UpdateResource through the scripted control plane, caller cancellation as the deadline, real eviction body: systematic enumeration (stateless search with re-execution) of all interleavings of four scenarios - one lookup x delivery x deadline; two lookups of one name x delivery x first caller's deadline; two lookups of different names x one delivery x deadline; delivery x eviction racing the wake-up - capped per scenario in the quick tier and complete in the thorough tier (which adds three lookups of one name with two deadlines, and two deliveries with eviction), plus random schedules with 3-6 lookups over two names. The select arm that fired is reported by the hooks; every trace is validated step by step against the interleaving model (each reported step must be enabled and lead to the reported result). " + 'Non-trivial: a delivery falls strictly between some lookup start and its return. The enumerated shapes are exhaustive at yield-point granularity in the thorough tier',
+        'assumptions': COMMON_ASSUME + ['when the notifier is closed and the deadline has fired before the goroutine runs, Go picks either select arm: both outcomes are accepted for that lookup',
+                                         'an update is "accepted" for the names subscribed when it arrives (C01)'],
+        'level_text': 'Theorems over all schedules, any number of threads and names (not 2..3): WaitInv holds in every reachable state (8-field invariant incl. a lower bound of the notifier waiter count by any duplicate-free list of attached threads); '
+                      'a delivery that carries the name of a waiting thread closes its notifier in that very step, its wake-up step is enabled and the re-read finds the content (no_lost_wakeup); a delivery landing between the unlocked miss and the registration is returned by the '
+                      'registration step (update_before_registration); a timed-out or cancelled caller leaves every other waiter attached to its notifier (timeout_is_private). decide-checked schedules show both lost wake-ups of the shape before the repairs (S6, S7).',
+        'level_note': 'Trusted: Lean kernel; Go runtime (select, channels, RWMutex); extractor (getVariant); yield hooks and scheduler of the harness.',
+    },
+    'C07': {
+        'extra_seed_args': ['-noenum'],
+        'rule': "deterministic schedules of real Get goroutines parked at four verif yield points (after the first miss, before the select, after the notifier arm, after the deadline arm), real UpdateResource through the scripted control plane, caller cancellation as the deadline, real eviction body: systematic enumeration (stateless search with re-execution) of all interleavings of four scenarios - one lookup x delivery x deadline; two lookups of one name x delivery x first caller's deadline; two lookups of different names x one delivery x deadline; delivery x eviction racing the wake-up - capped per scenario in the quick tier and complete in the thorough tier (which adds three lookups of one name with two deadlines, and two deliveries with eviction), plus random schedules with 3-6 lookups over two names. The select arm that fired is reported by the hooks; every trace is validated step by step against the interleaving model (each reported step must be enabled and lead to the reported result). " + 'Non-trivial: a delivery falls strictly between some lookup start and its return. Thorough tier additionally runs the history harness of C01/C03/C04 under the Go race detector (supporting evidence only)',
+        'assumptions': COMMON_ASSUME + ['DATA RACES ARE NOT EXPRESSIBLE IN THE MODEL (sequentially consistent atomic steps): the claim is partial; what is proved is linearizability of lookups, absence of stuck lookups and of lock-order cycles, and handlers-before-write',
+                                         'the lock-nesting edges come from a syntactic intra-package call graph (function names); a full request channel while the sender adopts a stream (needs 1024 unsent requests) is outside the model (documented limitation S12)',
+                                         'goroutine leaks and runtime starvation are out of reach'],
+        'level_text': 'Theorems over all schedules: a returned value is read by a step of the lookup itself at which the cache holds exactly that value (linearization_point); the cache of a name changes only by an accepted update or an eviction (one atomic register per name); '
+                      'an error has a witness (deadline fired, or the resource was gone at the re-read); handlers run before the cache write inside one locked region (regenerated statement order); the regenerated lock-nesting edges (m.mu -> c.mu -> r.mu) are acyclic (decide on an executable '
+                      'topological peel); no reachable state has a stuck lookup. The executable spec checks on every trace that each value was current between start and return and each timeout had a fired deadline.',
+        'level_note': 'PARTIAL: data-race freedom is the Go memory model (not modelled); deadlock freedom is proved for the model (mutex order + progress of lookups), not for the request channel at capacity. Trusted: Lean kernel; Go runtime; extractor (lockEdges, updateOrder); harness.',
+    },
 }
